@@ -128,3 +128,16 @@ pub fn nontrivial(tcs: &[String]) -> bool {
     }
     false
 }
+
+/// Two prefixes x suffix symbols whose class-converted labels coincide while their sort positions differ:
+/// '1' < ':' < 'A' < 'a' in byte order, and U+0663 (a digit, 2 bytes) sorts after every 2-byte string. Equivalent
+/// trie states then receive their out-edges in different orders.
+pub fn u_prefix_suffix() -> Universe {
+    let mut w = vec![];
+    for p in ["x", "y"] {
+        for s in ["1", ":", "A", "a", "\u{663}"] {
+            w.push(format!("{p}{s}"));
+        }
+    }
+    Universe::from_words("U_ps{x,y}x{1,:,A,a,U+0663} all subsets", w, 0)
+}
